@@ -52,6 +52,14 @@ func appendNextToken(l *LLk) {
 	l.tkns = append(l.tkns, lexer.Token{Type: lexer.ItemEOF})
 }
 
+// Drain consumes all the tokens that the lexer has not delivered yet. The
+// lexer runs in its own goroutine and blocks delivering tokens; if nobody
+// reads them, for instance after a parsing error, it would be leaked.
+func (l *LLk) Drain() {
+	for range l.c {
+	}
+}
+
 // Current returns the current token being processed.
 func (l *LLk) Current() *lexer.Token {
 	return &l.tkns[0]
